@@ -92,20 +92,34 @@ class SchedFuzz:
         try:
             codes = code_objects(func, True)
             hit = None
-            for c in codes:
-                try:
-                    src, start = inspect.getsourcelines(c)
-                except (OSError, TypeError):
-                    continue
-                k = 0
-                for i, line in enumerate(src):
-                    if pattern in line:
-                        if k == occurrence:
-                            hit = (c, start + i)
-                            break
-                        k += 1
-                if hit:
-                    break
+            # the source text of an outer function contains its nested functions: the site belongs to the code
+            # object whose own line table covers the matching line (the innermost one)
+            try:
+                src, start = inspect.getsourcelines(codes[0])
+            except (OSError, TypeError):
+                src, start = [], 0
+            k = 0
+            target_line = None
+            for i, line in enumerate(src):
+                if pattern in line:
+                    if k == occurrence:
+                        target_line = start + i
+                        break
+                    k += 1
+            if target_line is not None:
+                for c in codes:
+                    own = {ln for (_, _, ln) in c.co_lines() if ln is not None}
+                    first = c.co_firstlineno
+                    if target_line in own and not (c is not codes[0] and target_line == first and False):
+                        # prefer the innermost: later entries of `codes` are nested deeper
+                        hit = (c, target_line)
+                if hit is None:
+                    # the matching line itself carries no instruction (e.g. a `def` line or a multi-line statement): take the
+                    # innermost code object whose span contains it
+                    for c in codes:
+                        own = sorted({ln for (_, _, ln) in c.co_lines() if ln is not None})
+                        if own and own[0] <= target_line <= own[-1]:
+                            hit = (c, target_line)
             if hit is None:
                 self.missing_sites.append(name or pattern)
                 return self
